@@ -109,7 +109,8 @@ def val_token(rng, typ, fancy=True):
     if typ in ('str', 'ptr'):
         sp = spell_string(rng, dec, fancy)
     else:
-        sp = dec if rng.random() < 0.8 else rng.choice([spell_sq(dec), '"%s"' % dec])
+        # ('+' is not a bare-word character: "+7" must be quoted to reach the converter as written)
+        sp = dec if (rng.random() < 0.8 and word_ok(dec)) else rng.choice([spell_sq(dec), '"%s"' % dec])
     return ['val', sp, dec], v
 
 
